@@ -119,7 +119,9 @@ def run_family(ctx, steps):
                                 shared.append(f"{k}: nested array object")
                         if isinstance(v, pd.DataFrame) and isinstance(new, pd.DataFrame):
                             for c in v.columns:
-                                if c in new.columns and v[c].dtype.kind in "fiu" and new[c].dtype == v[c].dtype and len(v) and len(new):
+                                # numpy-backed (mutable) columns only: Arrow-backed columns share immutable buffers by design
+                                if (c in new.columns and isinstance(v[c].dtype, np.dtype) and v[c].dtype.kind in "fiu"
+                                        and new[c].dtype == v[c].dtype and len(v) and len(new)):
                                     if np.shares_memory(v[c].to_numpy(), new[c].to_numpy()):
                                         shared.append(f"{k}: base column {c}")
                     ctx.case(f"family.result_is_fresh.{op}", {"history": list(hist) + [desc]}, {"ok": shared}, None, {"ok": []},
